@@ -145,6 +145,14 @@ def run(ctx):
     d5_scratch_constant(db, rep)
     d6_sibling_rows(db, rep, FLOAT)
     d7_operand_arity(db, rep)
+    # D8: a double parameter reaches the emulator with both halves intact (widening rule, shared with C02 D4): a sign-extended low
+    # half turns a finite parameter into a NaN
+    from widen import check_or_halves
+    n8 = 0
+    for f8 in db.tu("orcexecutor").main_functions():
+        n8 += check_or_halves(f8, rep, "D8-PARAM-HALVES", where(f8))
+    if n8 < 1:
+        raise AnalysisBroken("no `lo | hi << 32` assembly found in orcexecutor.c")
 
 
 def d5_scratch_constant(db, rep):
